@@ -1,6 +1,7 @@
 import Crusta.Model.Equiv
 import Crusta.Proofs.Deciders
 import Crusta.Proofs.EquivSound
+import Crusta.Proofs.EquivGrounded
 
 /-! # C19 — arguments merged by the equivalence reduction are indistinguishable (property theorems) -/
 
@@ -61,5 +62,47 @@ theorem propagation_sound (af : AF) (hwf : af.WF) (args : List Nat) (hargs : ∀
       ∀ S, Complete af S → (∀ a ∈ args, S a = true) → (∀ x ∈ p, S x = true) ∧ (∀ x ∈ d, S x = false)) ∧
     (propagate af (nAttacksTo af) args = none → ¬ ∃ S, Complete af S ∧ ∀ a ∈ args, S a = true) :=
   propagate_sound af hwf args hargs
+
+/-! ### "in particular all arguments of the grounded extension together, and all arguments it defeats together" -/
+
+/-- every argument that is in every complete extension (i.e. in the grounded extension) is a member of
+the class of kind `grounded` -/
+theorem grounded_arguments_together (af : AF) (hwf : af.WF) (a : Nat) (ha : a < af.n)
+    (hall : ∀ S, Complete af S → S a = true) :
+    ∃ c ∈ computeClasses af, c.kind = .grounded ∧ a ∈ c.members :=
+  Eq.grounded_arguments_together af hwf a ha hall
+
+/-- every argument attacked by an argument of the grounded extension is a member of the class of kind
+`defeated` -/
+theorem defeated_arguments_together (af : AF) (hwf : af.WF) (a b : Nat) (ha : a < af.n) (hb : b < af.n)
+    (hall : ∀ S, Complete af S → S a = true) (hatt : (a, b) ∈ af.atts) :
+    ∃ c ∈ computeClasses af, c.kind = .defeated ∧ b ∈ c.members :=
+  Eq.defeated_arguments_together af hwf a b ha hb hall hatt
+
+/-- there is at most one class of each of the two special kinds: "together" means one class -/
+theorem special_classes_unique (af : AF) (hwf : af.WF) :
+    ∀ c1 ∈ computeClasses af, ∀ c2 ∈ computeClasses af, c1.kind = c2.kind → c1.kind ≠ .other → c1 = c2 :=
+  Eq.special_classes_unique af hwf
+
+/-- hence `init_to_reduced_arg` sends any two grounded arguments to the same reduced argument … -/
+theorem grounded_same_reduced_argument (af : AF) (hwf : af.WF) (a b : Nat) (ha : a < af.n) (hb : b < af.n)
+    (halla : ∀ S, Complete af S → S a = true) (hallb : ∀ S, Complete af S → S b = true) :
+    (initToReduced af.n (computeClasses af)).getD a 0 = (initToReduced af.n (computeClasses af)).getD b 0 :=
+  Eq.grounded_same_index af hwf a b ha hb halla hallb
+
+/-- … and any two arguments defeated by the grounded extension as well -/
+theorem defeated_same_reduced_argument (af : AF) (hwf : af.WF) (a a' b b' : Nat)
+    (ha : a < af.n) (ha' : a' < af.n) (hb : b < af.n) (hb' : b' < af.n)
+    (halla : ∀ S, Complete af S → S a = true) (halla' : ∀ S, Complete af S → S a' = true)
+    (hatt : (a, b) ∈ af.atts) (hatt' : (a', b') ∈ af.atts) :
+    (initToReduced af.n (computeClasses af)).getD b 0 = (initToReduced af.n (computeClasses af)).getD b' 0 :=
+  Eq.defeated_same_index af hwf a a' b b' ha ha' hb hb' halla halla' hatt hatt'
+
+/-- the class of kind `grounded` IS the grounded extension, the class of kind `defeated` the set it attacks -/
+theorem grounded_class_is_the_grounded_extension (af : AF) (hwf : af.WF) :
+    (∀ c ∈ computeClasses af, c.kind = .grounded → Grounded af (ofList c.members)) ∧
+    (∀ c ∈ computeClasses af, c.kind = .defeated →
+      ∀ G, Grounded af G → ∀ x, x ∈ c.members ↔ AttackedBy af G x) :=
+  Eq.grounded_class_is_grounded af hwf
 
 end Crusta.C19
